@@ -43,7 +43,24 @@ let cmd_sample r =
   let w = rd_list rd_pair r in
   pr_list tok_of_q (sample (grad_pp w) dt nt)
 
+(* pns.tapok n N alpha -> tap_count_ok tap_count_tight (eps = the source's default) *)
+let cmd_tapok r =
+  let n = rd_nat r in
+  let nn = rd_nat r in
+  let alpha = rd_q r in
+  pr_bool (tap_count_ok n nn alpha lowpass_eps) ^ " " ^ pr_bool (tap_count_tight n alpha lowpass_eps)
+
+(* pns.safe gamma dt hw g -> the SAFE reference (recursive filters) on sampled gradient values *)
+let cmd_safe r =
+  let gamma = rd_q r in
+  let dt = rd_q r in
+  let h = rd_hw r in
+  let g = rd_list rd_q r in
+  pr_list tok_of_q (safe_axis h gamma dt g)
+
 let () =
+  Driver.register "pns.tapok" cmd_tapok;
+  Driver.register "pns.safe" cmd_safe;
   Driver.register "pns.calc" cmd_calc;
   Driver.register "pns.lowpass" cmd_lowpass;
   Driver.register "pns.sample" cmd_sample
